@@ -266,19 +266,22 @@ LEFTOVER = st.one_of(
 
 
 @st.composite
-def message(draw, side, small=False):
+def message(draw, side, small=False, want=None):
+    """want="chunked" forces an HTTP/1.1 message with a chunked body."""
     w = Wire()
     spec = {"side": side, "interim": 0, "reqmethod": "GET"}
     if side == "request":
         method = draw(st.sampled_from(METHODS))
         target = draw(request_target(method, small))
-        version = draw(st.sampled_from([[1, 1], [1, 1], [1, 0]]))
+        version = draw(st.sampled_from([[1, 1], [1, 1], [1, 0]])) if want != "chunked" else [1, 1]
         start = dict(target)
         start.update({"method": method, "version": version})
         w.add("%s %s HTTP/%d.%d" % (method, target["url"], version[0], version[1]), "startline")
         w.crlf()
         framings = ["none", "length", "chunked"] if version == [1, 1] else ["none", "length"]
         framing = draw(st.sampled_from(framings + (["chunked"] if version == [1, 1] else [])))
+        if want == "chunked":
+            framing = "chunked"
     else:
         if not small and draw(st.integers(0, 7)) == 0:
             spec["interim"] = n100 = draw(st.integers(1, 2))
@@ -289,8 +292,8 @@ def message(draw, side, small=False):
                     for name, value in draw(header_list(False, maxn=2)):
                         _put_header(draw, w, name, value)
                 w.crlf()
-        version = draw(st.sampled_from([[1, 1], [1, 1], [1, 0]]))
-        kind = draw(st.integers(0, 9))
+        version = draw(st.sampled_from([[1, 1], [1, 1], [1, 0]])) if want != "chunked" else [1, 1]
+        kind = draw(st.integers(0, 9)) if want != "chunked" else 9
         if kind == 0:
             status, framings = draw(st.sampled_from([204, 304])), ["none"]
         elif kind == 1:
@@ -309,7 +312,7 @@ def message(draw, side, small=False):
         start = {"version": version, "status": status, "reason": reason}
         w.add("HTTP/%d.%d %d %s" % (version[0], version[1], status, reason), "startline")
         w.crlf()
-        framing = draw(st.sampled_from(framings))
+        framing = draw(st.sampled_from(framings)) if want != "chunked" else "chunked"
 
     headers = draw(header_list(small))
     special = []
@@ -466,15 +469,15 @@ def byte_edits(draw, data, lo=0, maxn=3):
 def malformed(draw, side):
     """A (mostly) malformed message derived from a valid one.
     -> dict(data, mut, nt, base) ; nt = the damage lies behind an intact start line"""
-    spec = draw(message(side, draw(st.integers(0, 3)) == 0))
+    kinds = ["bytes", "bytes-late", "hdr-nocolon", "hdr-junk", "length", "start", "truncate", "random",
+             "valid", "url" if side == "request" else "start", "big", "chunk-size", "chunk-term",
+             "bytes-late", "chunk-size", "chunk-term", "url" if side == "request" else "hdr-junk"]
+    kind = kinds[draw(st.integers(0, 1018)) % len(kinds)]      # near-uniform over the list
+    want = "chunked" if kind.startswith("chunk") or draw(st.integers(0, 3)) == 0 else None
+    spec = draw(message(side, draw(st.integers(0, 3)) == 0, want=want))
     wire = bytes(spec["wire"])
     sl = _regions(spec, "startline")[-1]          # the final response's start line
     after_start = sl[1] + 2
-    kinds = ["bytes", "bytes-late", "hdr-nocolon", "hdr-junk", "length", "start", "truncate", "random",
-             "valid", "url" if side == "request" else "start", "big"]
-    if spec["framing"] == "chunked":
-        kinds += ["chunk-size", "chunk-size", "chunk-term", "chunk-term"]
-    kind = draw(st.sampled_from(kinds))
     out = {"mut": kind, "nt": True, "base": {"framing": spec["framing"], "side": side}}
 
     def splice(region, repl):
